@@ -210,7 +210,7 @@ pub fn meta(prop: &str) -> Meta {
             exhaustive_when_complete: true,
             ..m(
                 "exploration",
-                "bounded-exhaustive enumeration of strings over the alphabet {'/','+','#','$','a',NUL,'é','😀'} alone and behind 11 '$share'/'$SYS' prefix shapes, plus structured strings of 65,533..70,000 bytes; oracle: split-based predicate written from MQTT 4.7/4.8; TopicFilter::is_invalid, the constructor and v3/v5 SUBSCRIBE/UNSUBSCRIBE decoding (blocking always, async+poll for every 8th string) must all give the oracle's decision. Every string is distinct by construction (counted); 'exhaustive' refers to the stated bounded space",
+                "bounded-exhaustive enumeration of strings over the alphabet {'/','+','#','$','a',NUL,'é','😀'} alone and behind 11 '$share'/'$SYS' prefix shapes, plus structured strings of 65,533..70,000 bytes and tape-generated random long strings (lengths up to and beyond 65,535, special characters at random positions, '$share'/'$SYS' prefixes); oracle: split-based predicate written from MQTT 4.7/4.8; TopicFilter::is_invalid, the constructor and v3/v5 SUBSCRIBE/UNSUBSCRIBE decoding (blocking always, async+poll for every 8th string) must all give the oracle's decision. Every string is distinct by construction (counted); 'exhaustive' refers to the stated bounded space",
                 &[COMMON_ASSUME, "strings outside the enumerated space are only sampled by the long-string list"],
             )
         },
@@ -218,7 +218,7 @@ pub fn meta(prop: &str) -> Meta {
             exhaustive_when_complete: true,
             ..m(
                 "exploration",
-                "every valid filter of C16's bounded space: accessors vs the unique split '$share/'+name+'/'+filter computed by the harness, to_string/deref = text, is_sys; equality, ordering (antisymmetry, transitivity, partial_cmp = cmp, Equal <=> same text) and hashing on neighbouring and distant triples, including equal texts from separate allocations and from a decoded SUBSCRIBE. Non-trivial = valid filter; distinct by construction (counted)",
+                "every valid filter of C16's bounded space: accessors vs the unique split '$share/'+name+'/'+filter computed by the harness, to_string/deref = text, is_sys; equality, ordering (antisymmetry, transitivity, partial_cmp = cmp, Equal <=> same text) and hashing on neighbouring and distant triples, including equal texts from separate allocations and from a decoded SUBSCRIBE; plus tape-generated random valid filters (multi-byte share names, filters beginning with '/', levels up to 65,535 bytes) in triples. Non-trivial = valid filter; distinct by construction (counted)",
                 &[COMMON_ASSUME, "hash equality is checked with std's DefaultHasher"],
             )
         },
@@ -226,7 +226,7 @@ pub fn meta(prop: &str) -> Meta {
             exhaustive_when_complete: true,
             ..m(
                 "exploration",
-                "bounded-exhaustive enumeration of strings over {'/','+','#','$','a','S',NUL,'é','😀'} alone and behind '$share/', '$SYS/' and near-miss prefixes, plus strings of 65,533..70,000 bytes; oracle: <= 65,535 bytes and none of '+', '#', U+0000; checked through TopicName::is_invalid, the constructor (read-back, is_shared, is_sys) and six packet paths (v3/v5 PUBLISH topic, v3/v5 will topic, v5 response topic in PUBLISH and will properties). Every string is distinct by construction (counted)",
+                "bounded-exhaustive enumeration of strings over {'/','+','#','$','a','S',NUL,'é','😀'} alone and behind '$share/', '$SYS/' and near-miss prefixes, plus strings of 65,533..70,000 bytes and tape-generated random long strings; oracle: <= 65,535 bytes and none of '+', '#', U+0000; checked through TopicName::is_invalid, the constructor (read-back, is_shared, is_sys) and six packet paths (v3/v5 PUBLISH topic, v3/v5 will topic, v5 response topic in PUBLISH and will properties). Every string is distinct by construction (counted)",
                 &[COMMON_ASSUME],
             )
         },
